@@ -35,7 +35,7 @@ def plan(tier, seed):
 
 def minimums(tier):
     return {"relation.checked": 1200, "junk.files": 8000, "junk.truncation": 1000, "junk.corruption": 4000,
-            "junk.edit": 300, "mode.-a": 100, "mode.-l": 100, "mode.-n": 100, "mode.-j": 100, "mode.--plid": 30,
+            "junk.edit": 300, "junk.hostile-json": 50, "mode.-a": 100, "mode.-l": 100, "mode.-n": 100, "mode.-j": 100, "mode.--plid": 30,
             "mode.--src": 30, "mode.--src-exclude": 30, "mode.-a -x": 30, "mode.-l -x": 30, "sub.relations_checked": 40}
 
 
@@ -81,6 +81,11 @@ def candidates(rng, u, reg, step):
         out.append(("corruption", d))
     for tag, d in mutate.field_edits(pel, rng):
         out.append(("edit", d))
+    for doc in mutate.hostile_json_ud(rng, u):
+        for before_ps in (True, False):
+            ud = pm.sec_ud(rng, u, "O", 0x2000, 1, 1, doc[:60000], expect_mode="none")
+            secs = [ud, pm.gen_src(rng, u, True, "O")] if before_ps else [pm.gen_src(rng, u, True, "O"), ud]
+            out.append(("hostile-json", pm.Pel("O", pm.gen_ph(rng, u, "O"), pm.gen_uh(rng, "O"), secs).encode()))
     for _ in range(20):
         out.append(("random", bytes(rng.randrange(256) for _ in range(rng.randrange(1, 300)))))
     out += [("empty", b"")] * 5
